@@ -241,6 +241,41 @@ def build_calls(tmpdir):
         "ns.Top": {"type": "record", "name": "Top", "namespace": "ns", "fields": [{"name": "a", "type": "Point"}, {"name": "b", "type": "ns.Point"}]},
         "ns.Point": {"type": "record", "name": "ns.Point", "fields": [{"name": "only", "type": "string"}]}}}, load)
 
+    # one repository object kept by the application and used for several loads (per-type files written once per run)
+    repodir = tempfile.mkdtemp(dir=tmpdir)
+    REPO_FILES = {
+        "geo.Leaf": {"type": "record", "name": "geo.Leaf", "fields": [{"name": "v", "type": "int"}]},
+        "ev.A": {"type": "record", "name": "ev.A", "fields": [{"name": "leaf", "type": "geo.Leaf"}]},
+        "ev.B": {"type": "record", "name": "ev.B", "fields": [{"name": "leaf", "type": "geo.Leaf"}, {"name": "n", "type": "long", "default": 1}]},
+        "ev.Top": {"type": "record", "name": "ev.Top", "fields": [{"name": "a", "type": "ev.A"}, {"name": "b", "type": "ev.B"}]}}
+    for name, sch in REPO_FILES.items():
+        with open(os.path.join(repodir, name + ".avsc"), "w") as f:
+            json.dump(sch, f)
+
+    def load_kept_repo(fa, a, sh):
+        from fastavro.schema import load_schema
+        from fastavro.repository.flat_dict import FlatDictRepository
+        repo = sh.setdefault("REPO", FlatDictRepository(repodir))
+        return canon(fa, load_schema(a["name"], repo=repo))
+    add("load_B_kept_repo", lambda: {"name": "ev.B"}, load_kept_repo)
+    add("load_Top_kept_repo", lambda: {"name": "ev.Top"}, load_kept_repo)
+
+    # a parsed top-level union (a list) the application keeps: written with twice, a branch needs the caller's name table
+    def write_parsed_union(fa, a, sh):
+        if "PU" not in sh:
+            names = {}
+            fa.parse_schema({"type": "enum", "name": "ns.Shade", "symbols": ["DARK", "LIGHT"]}, names)
+            sh["PU"] = fa.parse_schema(["null", {"type": "record", "name": "ns.Paint", "fields": [{"name": "shade", "type": "ns.Shade"}]}], names)
+        pu = sh["PU"]
+        out = []
+        for _ in range(2):
+            fo = io.BytesIO()
+            fa.writer(fo, pu, [{"shade": "LIGHT"}, None], sync_marker=b"0123456789abcdef")
+            out.append(fo.getvalue())
+        from fastavro.validation import validate
+        return {"file": out[0], "valid": validate({"shade": "DARK"}, pu, raise_errors=False), "__must__": out[0] == out[1]}
+    add("write_kept_parsed_union", lambda: {}, write_parsed_union)
+
     def interleaved(fa, a, sh):
         fa_w = io.BytesIO()
         fa.writer(fa_w, a["s1"], a["r1"], sync_marker=b"0123456789abcdef")
